@@ -244,7 +244,7 @@ def run_history(case, ctx: Ctx) -> None:
                     if mine[k].kind == "TABLE" and cm != mine[k].comment:
                         if cm is not None and cm in ghost_comments.get(k, ()) and mine[k].comment is None:
                             mode = "comment-of-earlier-incarnation"  # the side table was not cleaned when the name was dropped/replaced/renamed
-                        elif cm is None and "+rename" in mine[k].how.replace("+rename-col", ""):
+                        elif cm is None and "rename" in mine[k].how.split("+"):
                             mode = "comment-lost-by-rename"
                         elif cm is None:
                             mode = f"comment-lost|how={mine[k].how}"
@@ -543,7 +543,7 @@ def run_history(case, ctx: Ctx) -> None:
                             return
                         del cat[k]
                         bury(k, have)
-                        cat[k2] = T("TABLE", have.cols, have.comment, have.how + ("" if "+rename" in have.how else "+rename"))
+                        cat[k2] = T("TABLE", have.cols, have.comment, have.how + ("" if "rename" in have.how.split("+") else "+rename"))
                         dropped_names.add(k)
                         reused = reused or k2 in dropped_names
                         dropped_names.discard(k2)
